@@ -1,3 +1,4 @@
+#![allow(dead_code)]
 //! A small structural CBOR reader / writer, independent of minicbor and of
 //! pallas: items are parsed into a tree that remembers the byte span of every
 //! node (so the harness can project blocks and transactions straight from the
@@ -204,6 +205,10 @@ pub enum Style {
     Widen(u64),
     /// minimal heads and definite containers everywhere (canonical-ish; order kept)
     Minimal,
+    /// the entries of a map are emitted in a shuffled order, with probability num/8 per map
+    ShuffleMaps(u64),
+    /// set tags (#6.258) are dropped, with probability num/8 per tag
+    UntagSets(u64),
 }
 
 fn put_head(out: &mut Vec<u8>, major: u8, arg: u64, width: u8) {
@@ -258,7 +263,7 @@ pub struct Writer<'r> {
 impl<'r> Writer<'r> {
     fn width(&mut self, w: u8) -> u8 {
         match self.style {
-            Style::Same | Style::FlipDefinite(_) => w,
+            Style::Same | Style::FlipDefinite(_) | Style::ShuffleMaps(_) | Style::UntagSets(_) => w,
             Style::Minimal => 0,
             Style::Widen(p) => {
                 if w < 8 && self.rng.below(8) < p {
@@ -272,7 +277,7 @@ impl<'r> Writer<'r> {
     }
     fn indef(&mut self, was: bool) -> bool {
         match self.style {
-            Style::Same | Style::Widen(_) => was,
+            Style::Same | Style::Widen(_) | Style::ShuffleMaps(_) | Style::UntagSets(_) => was,
             Style::Minimal => false,
             Style::FlipDefinite(p) => {
                 if self.rng.below(8) < p {
@@ -334,7 +339,18 @@ impl<'r> Writer<'r> {
                     let w = if *indef { 0 } else { self.width(n.width) };
                     put_head(out, 5, items.len() as u64, w);
                 }
-                for (k, v) in items {
+                let mut order: Vec<usize> = (0..items.len()).collect();
+                if let Style::ShuffleMaps(p) = self.style {
+                    if items.len() > 1 && self.rng.below(8) < p {
+                        let before = order.clone();
+                        self.rng.shuffle(&mut order);
+                        if order != before {
+                            self.changed += 1;
+                        }
+                    }
+                }
+                for i in order {
+                    let (k, v) = &items[i];
                     self.ser(k, out);
                     self.ser(v, out);
                 }
@@ -343,6 +359,30 @@ impl<'r> Writer<'r> {
                 }
             }
             Kind::Tag(t, inner) => {
+                if let Style::UntagSets(p) = self.style {
+                    if *t == 258 && self.rng.below(8) < p {
+                        self.changed += 1;
+                        self.ser(inner, out);
+                        return;
+                    }
+                }
+                // embedded CBOR (#6.24(bytes .cbor x)): re-encode x as well, then wrap it again
+                if *t == 24 && self.style != Style::Same {
+                    if let Kind::Bytes(chunks, _) = &inner.kind {
+                        let all = chunks.concat();
+                        if let Ok(x) = parse(&all) {
+                            let mut nested = Vec::new();
+                            let before = self.changed;
+                            self.ser(&x, &mut nested);
+                            if self.changed > before {
+                                put_head(out, 6, *t, n.width);
+                                put_head(out, 2, nested.len() as u64, 0);
+                                out.extend_from_slice(&nested);
+                                return;
+                            }
+                        }
+                    }
+                }
                 let w = self.width(n.width);
                 put_head(out, 6, *t, w);
                 self.ser(inner, out);
